@@ -21,7 +21,7 @@ ASSUMPTIONS = ['playback objects are small picklable harness objects whose origi
                'the parent\'s "timed out" decision and the delivery of SIGKILL (a legitimate OS schedule made '
                'deterministic)']
 
-FAILING = ('player_raises', 'extractor_raises', 'comparator_raises', 'exit', 'hang', 'late')
+FAILING = ('player_raises', 'extractor_raises', 'comparator_raises') + PF.PROCESS_FAULTS
 
 
 def check(scenario, obs):
@@ -98,7 +98,7 @@ def scenarios(draw, dedicated=None):
     ded = draw(st.booleans()) if dedicated is None else dedicated
     if ded:
         pool = ['equal', 'equal', 'different', 'player_raises', 'extractor_raises', 'comparator_raises', 'bare_status',
-                'exit', 'hang', 'late', 'late']
+                'exit', 'hang', 'late', 'late', 'hang_sigterm_ignored', 'dies_after_giveup']
     else:
         pool = ['equal', 'equal', 'different', 'player_raises', 'extractor_raises', 'comparator_raises', 'bare_status']
     behs = [draw(st.sampled_from(pool)) for _ in ids]
